@@ -226,4 +226,44 @@ theorem SpecRun.det_events {k k' : Kind} {v v1 w w1 : View D} {ops : List (Op D)
       exact ih (fun op hop => hd op (List.mem_cons_of_mem _ hop))
         (SpecStep.det_events (hd _ (List.mem_cons_self ..)) hvw hs hs') hr'
 
+/-! ## listings determined by a view -/
+
+theorem listed_of_view {L : List (String × Meta)} {v : View D}
+    (hL : ∀ b m, (b, m) ∈ L ↔ ∃ es, v b = some (m, es)) {b : String} {m : Meta} {es : List (Ev D)}
+    (hv : v b = some (m, es)) : (b, m) ∈ L ∧ ∀ m', (b, m') ∈ L → m' = m := by
+  refine ⟨(hL b m).mpr ⟨es, hv⟩, ?_⟩
+  intro m' hm'
+  obtain ⟨es', h'⟩ := (hL b m').mp hm'
+  rw [hv] at h'
+  injection h' with h'
+  injection h' with h' _
+  exact h'.symm
+
+theorem unlisted_of_view {L : List (String × Meta)} {v : View D}
+    (hL : ∀ b m, (b, m) ∈ L ↔ ∃ es, v b = some (m, es)) {b : String}
+    (hv : v b = none) (m : Meta) : (b, m) ∉ L := by
+  intro hm
+  obtain ⟨es, h⟩ := (hL b m).mp hm
+  rw [hv] at h
+  cases h
+
+/-- listings of two states whose views agree at `b'` agree at `b'` -/
+theorem listed_congr {L L' : List (String × Meta)} {v v' : View D}
+    (hL : ∀ b m, (b, m) ∈ L ↔ ∃ es, v b = some (m, es))
+    (hL' : ∀ b m, (b, m) ∈ L' ↔ ∃ es, v' b = some (m, es)) {b' : String} (h : v' b' = v b')
+    (m : Meta) : (b', m) ∈ L' ↔ (b', m) ∈ L := by
+  rw [hL, hL', h]
+
+theorem create_self (v : View D) (b : String) (m : Meta) : Spec.create v b m b = some (m, []) := by
+  simp only [Spec.create, Spec.setB, if_true]
+
+theorem deleteBucket_self (v : View D) (b : String) : Spec.deleteBucket v b b = none := by
+  simp only [Spec.deleteBucket, Spec.setB, if_true]
+
+theorem update_self {v : View D} {b : String} {m : Meta} {es : List (Ev D)}
+    (h : v b = some (m, es)) (f : Meta → Meta) : Spec.update v b f b = some (f m, es) := by
+  unfold Spec.update
+  rw [h]
+  simp only [Spec.setB, if_true]
+
 end Aw.Store
